@@ -660,10 +660,11 @@ impl InstrFormat for MsgHooks {
         }
     }
 
-    fn write_instr(&self, f: &mut BinWriter, _: &dyn Emitter, instr: &RawInstr) -> WriteResult {
-        f.write_i16(instr.time as _)?;
-        f.write_u8(instr.opcode as _)?;
-        f.write_u8(instr.args_blob.len() as _)?;  // this version writes argsize rather than instr size
+    fn write_instr(&self, f: &mut BinWriter, emitter: &dyn Emitter, instr: &RawInstr) -> WriteResult {
+        f.write_i16(llir::fit_instr_field(emitter, instr, "time", instr.time)?)?;
+        // the opcode is a signed byte (read back sign-extended)
+        f.write_i8(llir::fit_instr_field(emitter, instr, "opcode", instr.opcode as i16)?)?;
+        f.write_u8(llir::fit_instr_field(emitter, instr, "argument size", instr.args_blob.len())?)?;  // this version writes argsize rather than instr size
         f.write_all(&instr.args_blob)?;
         Ok(())
     }
